@@ -138,13 +138,13 @@ def gen_spec(base_seed, i, W):
     dec, smi, theme = corpus(crng)
     p_dec = {"mixed": 0.6, "decode": 0.9, "kekulize": 0.15}[theme]
     rng = random.Random("%d:schedsim:run:%d" % (base_seed, i))
-    n = rng.choice((2, 2, 2, 3, 3, 4))
+    n = rng.choice((2, 2, 2, 3, 3, 4) if procs.TIER == "quick" else (2, 2, 3, 3, 4, 5, 6))
     shared_first = rng.random() < 0.5
     first = None
     threads = []
     for t in range(n):
         calls = []
-        for j in range(rng.choice((1, 1, 2, 2, 3, 4))):
+        for j in range(rng.choice((1, 1, 2, 2, 3, 4) if procs.TIER == "quick" else (1, 2, 2, 3, 4, 6))):
             if rng.random() < p_dec:
                 x = rng.choice(dec)
                 if shared_first and j == 0:
